@@ -209,6 +209,20 @@ theorem taskReject_frw {s s' : State} {w : Nat} {id : TaskId} {rv : Option Nat} 
                 (FrW.setState_rd (s := s.setWorker wk) rd (id := id) ht rfl (htid ▸ sok_own))
             exact R _ _ (by cases rv <;> first | exact .inl rfl | exact .inr ⟨_, rfl⟩)
           · exact requeue _ (W _ (by cases rv <;> first | exact .inl rfl | exact .inr ⟨_, rfl⟩)) rfl h
+      · -- multi-node: refused by its root before the start was reported
+        split at h
+        · cases h
+        · split at h
+          · cases h; exact W _ (by cases rv <;> first | exact .inl rfl | exact .inr ⟨_, rfl⟩)
+          · split at h
+            · cases h; exact W _ (by cases rv <;> first | exact .inl rfl | exact .inr ⟨_, rfl⟩)
+            · split at h
+              · cases h; exact W _ (by cases rv <;> first | exact .inl rfl | exact .inr ⟨_, rfl⟩)
+              · split at h
+                · cases h
+                · rename_i s1 hr
+                  exact requeue _ ((W _ (by cases rv <;> first | exact .inl rfl | exact .inr ⟨_, rfl⟩)).trans
+                    (resetMnChecked_frq _ _ _ _ hr).own) (by have := resetMnChecked_tasks _ _ _ _ hr; exact this) h
       all_goals cases h
 
 /-- `task_running` (the traversal of `taskRunning_spec`) -/
